@@ -31,20 +31,19 @@ import (
 //	                   `for range`, a receive after the loop; producer goroutine that closes
 //	panics             send on a closed channel, close of a closed and of a nil channel under
 //	                   recover; select with a send case on a closed channel (with and without
-//	                   default, next to a nil-channel case) in a goroutine of its own; the
-//	                   messages are printed
+//	                   default, next to a nil-channel case) under recover in the SAME goroutine —
+//	                   the goroutine goes on with further channel operations in the VM whose
+//	                   reflect.Select panicked — or in a goroutine of its own whose deferred
+//	                   function sends the message; the messages are printed
 //
-// Known defects of the frozen tree that the generator steps around (each is replayed on every
-// check, see knownC14): a short variable declaration in a select case is declared in the scope of
-// the whole select, and the emitter opens no scope for the clauses at all, so that a name declared
-// again by a later select of the function lands in a released register (so every case of every
-// select of a function uses names of its own); `for v := range ch` allocates an
-// int register for v whatever the element type (so only int channels are ranged over with `:=`);
-// a recovered panic of a select leaves its cases in the VM (so such selects run in a goroutine of
-// their own, which has a VM of its own) — and so does, when the run has a context with a Done
-// channel, a recovered panic of a plain send (so segments that recover such a panic and go on in
-// the same goroutine are run without a Done channel: doneOff). The streams of opseq.go and
-// forms.go do not step around the defects they can reach: they predict them (forms.go).
+// Shapes that once were stepped around and are generated since the defects were repaired: names
+// declared again by a later select of the same function (select-script draws the names of its
+// cases from one pool per channel), `for v := range ch` over channels of every class, a panic of
+// reflect.Select (select with a send case, or — under a context with a Done channel — a plain
+// send, on a closed channel) recovered in the goroutine that goes on, under all four context
+// modes. Still open (replayed on every check, see knownC14): a short variable declaration in a
+// select case is declared in the scope of the whole select — every case of ONE select uses names of
+// its own here; forms.go predicts what happens when they do not.
 
 type chClass struct {
 	name, typ string
@@ -119,11 +118,6 @@ func perm(r *proto.Rand, n int) []int {
 type closedGen struct {
 	r *proto.Rand
 	b strings.Builder
-	// the segment recovers a panic raised inside reflect.Select and goes on in the same goroutine:
-	// with a Done channel OpSend is a reflect.Select as well, and what the known defects
-	// recovered-select-panic-leaves-stale-cases / recovered-send-panic-leaves-stale-cases-under-done-context
-	// leave in vm.cases breaks the next channel operation — such programs run without a Done channel
-	doneOff bool
 }
 
 func (g *closedGen) f(format string, a ...any) { fmt.Fprintf(&g.b, format, a...) }
@@ -294,11 +288,17 @@ func (g *closedGen) selectScript(name string) {
 		}
 	}
 	nsel := 0
+	// the names the cases declare: per channel, the same in every select statement of the function
+	// (a later select declares again what an earlier one declared), or new ones in every select
+	sameNames := r.Intn(3) > 0
 	sel := func() {
-		nsel++ // names of its own in every select statement (see knownC14)
+		nsel++
 		g.f("\tselect {\n")
 		for _, j := range perm(r, nch) {
 			v, k := fmt.Sprintf("v%dn%d", j, nsel), fmt.Sprintf("k%dn%d", j, nsel)
+			if sameNames {
+				v, k = fmt.Sprintf("v%d", j), fmt.Sprintf("k%d", j)
+			}
 			switch forms[j] {
 			case 0:
 				g.f("\tcase %s, %s := <-c%d:\n\t\tprintln(\"%s c%d\", "+cls.render+", b2s@@(%s))\n", v, k, j, name, j, v, k)
@@ -425,7 +425,7 @@ func (g *closedGen) rangeClosed(name string) {
 		g.f("\tclose(c)\n")
 	}
 	g.f("\t"+cls.accDecl+"\n\tcnt := 0\n", 0)
-	if cls.name == "int" && r.Intn(2) == 0 {
+	if r.Intn(2) == 0 {
 		g.f("\tfor v := range c {\n\t\t"+cls.acc+"\n\t\tcnt++\n\t}\n", 0, "v")
 		g.f("\tvar v %s = %s\n", cls.typ, cls.val(7, k))
 	} else {
@@ -443,11 +443,10 @@ func (g *closedGen) panics(name string) {
 	r := g.r
 	cls := chClasses[r.Intn(4)]
 	k := r.Intn(30)
-	g.f("func %s@@() {\n\tc := make(chan %s, %d)\n\tclose(c)\n\tvar n chan %s\n\t_ = n\n", name, cls.typ, r.Intn(3), cls.typ)
+	g.f("func %s@@() {\n\tc := make(chan %s, %d)\n\tclose(c)\n\tvar n chan %s\n\t_ = n\n\to := make(chan int, 1)\n\t_ = o\n", name, cls.typ, r.Intn(3), cls.typ)
 	for _, x := range perm(r, 5)[:2+r.Intn(4)] {
 		switch x {
 		case 0:
-			g.doneOff = true
 			g.f("\ttry@@(\"%s send\", func() { c <- %s })\n", name, cls.val(0, k))
 		case 1:
 			g.f("\ttry@@(\"%s close-closed\", func() { close(c) })\n", name)
@@ -456,16 +455,31 @@ func (g *closedGen) panics(name string) {
 		case 3:
 			g.f("\ttry@@(\"%s recv-closed\", func() { v, ok := <-c; println("+cls.render+", b2s@@(ok)) })\n", name, "v")
 		case 4:
-			// a select with a send case on the closed channel: in a goroutine of its own
-			g.doneOff = true // the deferred function of that goroutine sends
-			g.f("\t{\n\t\tres := make(chan string)\n\t\tgo func() {\n\t\t\tdefer func() { res <- msg@@(recover()) }()\n\t\t\tselect {\n\t\t\tcase c <- %s:\n\t\t\t\tprintln(\"sent\")\n", cls.val(1, k))
+			// a select with a send case on the closed channel: reflect.Select panics
+			var sel strings.Builder
+			fmt.Fprintf(&sel, "select {\n\t\t\tcase c <- %s:\n\t\t\t\tprintln(\"sent\")\n", cls.val(1, k))
 			if r.Intn(2) == 0 {
-				g.f("\t\t\tcase vn := <-n:\n\t\t\t\t_ = vn\n\t\t\t\tprintln(\"nil channel received\")\n")
+				sel.WriteString("\t\t\tcase vn := <-n:\n\t\t\t\t_ = vn\n\t\t\t\tprintln(\"nil channel received\")\n")
 			}
 			if r.Intn(2) == 0 {
-				g.f("\t\t\tdefault:\n\t\t\t\tprintln(\"default\")\n")
+				sel.WriteString("\t\t\tdefault:\n\t\t\t\tprintln(\"default\")\n")
 			}
-			g.f("\t\t\t}\n\t\t}()\n\t\tprintln(\"%s select-send\", <-res)\n\t}\n", name)
+			sel.WriteString("\t\t\t}\n")
+			if r.Intn(3) > 0 {
+				// recovered in this goroutine, which goes on: the operations that follow meet the
+				// VM whose reflect.Select panicked
+				g.f("\ttry@@(\"%s select-send\", func() {\n\t\t\t%s\t})\n", name, sel.String())
+			} else {
+				// in a goroutine of its own, whose deferred function sends the message
+				g.f("\t{\n\t\tres := make(chan string)\n\t\tgo func() {\n\t\t\tdefer func() { res <- msg@@(recover()) }()\n\t\t\t%s\t\t}()\n\t\tprintln(\"%s select-send\", <-res)\n\t}\n", sel.String(), name)
+			}
+		}
+		// after every step: a channel operation of this goroutine that is ready in one way only
+		switch r.Intn(4) {
+		case 0:
+			g.f("\tselect {\n\tcase w%d := <-o:\n\t\tprintln(\"%s other\", w%d)\n\tdefault:\n\t\tprintln(\"%s other default\")\n\t}\n", x, name, x, name)
+		case 1:
+			g.f("\to <- %d\n\tprintln(\"%s other\", <-o)\n", 40+x, name)
 		}
 	}
 	g.f("\tlast, ok := <-c\n\tprintln(\"%s\", "+cls.render+", b2s@@(ok))\n}\n\n", name, "last")
@@ -476,7 +490,6 @@ func (g *closedGen) panics(name string) {
 func genClosed(r *proto.Rand) *program {
 	n := 1 + r.Intn(3)
 	var segs, names, shapes []string
-	var off []bool
 	for i := 0; i < n; i++ {
 		g := &closedGen{r: r}
 		name := fmt.Sprintf("seg%d", i)
@@ -502,7 +515,6 @@ func genClosed(r *proto.Rand) *program {
 		}
 		segs = append(segs, g.b.String())
 		names = append(names, name)
-		off = append(off, g.doneOff)
 	}
 	mk := func(idx []int) string {
 		var b strings.Builder
@@ -522,18 +534,15 @@ func genClosed(r *proto.Rand) *program {
 		all[i] = i
 	}
 	p := &program{N: 4, M: 2, raw: mk(all), shapes: shapes}
-	for _, o := range off {
-		p.doneOff = p.doneOff || o
-	}
 	if n > 1 {
 		for i := 0; i < n; i++ {
-			p.alts = append(p.alts, &program{N: 4, M: 2, raw: mk([]int{i}), shapes: []string{shapes[i]}, doneOff: off[i]})
+			p.alts = append(p.alts, &program{N: 4, M: 2, raw: mk([]int{i}), shapes: []string{shapes[i]}})
 		}
 	}
 	return p
 }
 
-// ---- known defects of the frozen tree, replayed on every check --------------------------------
+// ---- known defects of the tree that are still open, replayed on every check --------------------------------
 
 // knownProg is a known defect: raw is a program in the raw form of program.raw (gc's output of it
 // comes from the same gc batch as everything else).
@@ -548,36 +557,28 @@ var knownC14 = []knownProg{
 	// statement instead of the case clause: two cases cannot declare the same name
 	{id: "select-comm-decl-shares-select-scope",
 		raw: "func @MAIN@() {\n\ta := make(chan int, 1)\n\tb := make(chan int, 1)\n\ta <- 1\n\tselect {\n\tcase v := <-a:\n\t\tprintln(\"a\", v)\n\tcase v := <-b:\n\t\tprintln(\"b\", v)\n\t}\n}\n"},
-	// a select that panics (send on closed channel) and is recovered leaves its cases in vm.cases:
-	// the next select of that goroutine runs them again (here it has nothing else that is ready, so
-	// that the outcome does not depend on reflect.Select's choice)
-	{id: "recovered-select-panic-leaves-stale-cases",
-		raw: "func @MAIN@() {\n\tc := make(chan int)\n\tclose(c)\n\tfunc() {\n\t\tdefer func() { recover() }()\n\t\tselect {\n\t\tcase c <- 1:\n\t\t}\n\t}()\n\td := make(chan int, 1)\n\tselect {\n\tcase v := <-d:\n\t\tprintln(v)\n\tdefault:\n\t\tprintln(\"default\")\n\t}\n}\n"},
-	// `for s := range ch`: the emitter allocates an INT register for s whatever the element type,
-	// OpRange stores the received value into the register of that number in the element's class
-	{id: "range-chan-declared-var-int-register",
-		raw: "func @MAIN@() {\n\ta := \"keep\"\n\tc := make(chan string, 1)\n\tc <- \"clobber\"\n\tclose(c)\n\tfor s := range c {\n\t\t_ = s\n\t}\n\tprintln(a)\n}\n"},
-	// with a Done channel OpSend is reflect.Select over vm.cases: a send on a closed channel panics
-	// inside it, the clause is left before the buffer is emptied; after recover the next channel
-	// operation of the goroutine selects the stale send case again (here a select that has nothing
-	// else ready, so that the outcome does not depend on reflect.Select's choice)
-	{id: "recovered-send-panic-leaves-stale-cases-under-done-context", mode: "cancel",
-		raw: "func @MAIN@() {\n\tc := make(chan int)\n\tclose(c)\n\tfunc() {\n\t\tdefer func() { recover() }()\n\t\tc <- 1\n\t}()\n\td := make(chan int, 1)\n\tselect {\n\tcase v := <-d:\n\t\tprintln(v)\n\tdefault:\n\t\tprintln(\"default\")\n\t}\n}\n"},
-	// all send cases of a select evaluate their values into ONE register per class before the case
-	// instructions run: every send case sends the value of the last one
-	{id: "select-send-cases-share-value-register",
-		raw: "func @MAIN@() {\n\ta := make(chan int, 1)\n\tvar b chan int\n\tselect {\n\tcase a <- 1:\n\tcase b <- 2:\n\t}\n\tprintln(<-a)\n}\n"},
-	// a break in a clause of a select jumps to a label that is never given an address: the function
-	// starts again from its first instruction, for ever
-	{id: "break-in-select-clause-never-lands", hang: true,
-		raw: "func @MAIN@() {\n\ta := make(chan int, 1)\n\ta <- 1\n\tselect {\n\tcase v := <-a:\n\t\tif v == 1 {\n\t\t\tbreak\n\t\t}\n\t\tprintln(\"not reached\")\n\t}\n\tprintln(\"end\")\n}\n"},
 	// the label of a labelled break is ignored: `break L` out of the for that encloses a select
 	// leaves (at best) the select only — the for-select loop never ends
 	{id: "labelled-break-out-of-for-select-ignores-label", hang: true,
 		raw: "func @MAIN@() {\n\ta := make(chan int, 1)\n\ta <- 1\n\tn := 0\nL:\n\tfor {\n\t\tselect {\n\t\tcase v := <-a:\n\t\t\tn += v\n\t\t\tbreak L\n\t\t}\n\t}\n\tprintln(\"out\", n)\n}\n"},
-	// the emitter opens no scope for the clauses of a select: a variable declared by the case of a
-	// second select with the name of one declared by an earlier select of the function is taken
-	// for that one, whose register was released — temporaries overwrite it
-	{id: "select-case-var-reuses-released-register",
-		raw: "func id@@(x string) string { return x }\n\nfunc @MAIN@() {\n\ta := make(chan string, 2)\n\ta <- \"one\"\n\ta <- \"two\"\n\tselect {\n\tcase v := <-a:\n\t\tprintln(id@@(\"x\") + v)\n\t}\n\tselect {\n\tcase v := <-a:\n\t\tprintln(id@@(\"y\") + v)\n\t}\n}\n"},
+}
+
+// repairedC14: the minimal programs of defects that were recorded and have been repaired in the
+// tree (fixes/COMMITS-2.md). Nothing is attributed to them: they are ordinary programs of every run
+// (under GOMAXPROCS 1/2/4/8 and all four context modes) and must behave as under gc — a fixed
+// matrix next to the generators, which draw the same shapes at random. shape: the stream whose
+// treatment the program gets (forms:select-break runs only under contexts that can stop it).
+var repairedC14 = []struct{ id, shape, raw string }{
+	{"recovered-select-panic-leaves-stale-cases", "closed:panics-under-recover",
+		"func @MAIN@() {\n\tc := make(chan int)\n\tclose(c)\n\tfunc() {\n\t\tdefer func() { recover() }()\n\t\tselect {\n\t\tcase c <- 1:\n\t\t}\n\t}()\n\td := make(chan int, 1)\n\tselect {\n\tcase v := <-d:\n\t\tprintln(v)\n\tdefault:\n\t\tprintln(\"default\")\n\t}\n}\n"},
+	{"recovered-send-panic-leaves-stale-cases-under-done-context", "closed:panics-under-recover",
+		"func @MAIN@() {\n\tc := make(chan int)\n\tclose(c)\n\tfunc() {\n\t\tdefer func() { recover() }()\n\t\tc <- 1\n\t}()\n\td := make(chan int, 1)\n\tselect {\n\tcase v := <-d:\n\t\tprintln(v)\n\tdefault:\n\t\tprintln(\"default\")\n\t}\n}\n"},
+	{"range-chan-declared-var-int-register", "closed:range",
+		"func @MAIN@() {\n\ta := \"keep\"\n\tc := make(chan string, 1)\n\tc <- \"clobber\"\n\tclose(c)\n\tfor s := range c {\n\t\t_ = s\n\t}\n\tprintln(a)\n}\n"},
+	{"select-send-cases-share-value-register", "closed:select-script-one-ready-case",
+		"func @MAIN@() {\n\ta := make(chan int, 1)\n\tvar b chan int\n\tselect {\n\tcase a <- 1:\n\tcase b <- 2:\n\t}\n\tprintln(<-a)\n}\n"},
+	{"break-in-select-clause-never-lands", "forms:select-break",
+		"func @MAIN@() {\n\ta := make(chan int, 1)\n\ta <- 1\n\tselect {\n\tcase v := <-a:\n\t\tif v == 1 {\n\t\t\tbreak\n\t\t}\n\t\tprintln(\"not reached\")\n\t}\n\tprintln(\"end\")\n}\n"},
+	{"select-case-var-reuses-released-register", "closed:select-script-one-ready-case",
+		"func id@@(x string) string { return x }\n\nfunc @MAIN@() {\n\ta := make(chan string, 2)\n\ta <- \"one\"\n\ta <- \"two\"\n\tselect {\n\tcase v := <-a:\n\t\tprintln(id@@(\"x\") + v)\n\t}\n\tselect {\n\tcase v := <-a:\n\t\tprintln(id@@(\"y\") + v)\n\t}\n}\n"},
 }
